@@ -368,6 +368,7 @@ def run(ctx):
     ext_helpers(rep, 'R04.d', prog, cg)
     # the length pass keeps the compact field-id context / pending bool exactly as the writer does (push old id, then reset)
     tp.compact_typestate(rep, 'R04.t', prog, cg)
+    tp.writers_do_not_overflow(rep, 'R04.o', prog, cg)
     rep.floor('R04.a', 70)
     rep.floor('R04.b', 25)
     rep.floor('R04.d', 20)
